@@ -22,7 +22,8 @@ TRUSTED = ['Model/ContainerV3 + Model/Construct + Model/Reader as models of pars
            '(index, thread id, process, pid, composed message) — the record model belongs to C16']
 from .. import rdir as _rdir  # noqa: E402
 from .. import kdinit as _kdinit  # noqa: E402
-TRUSTED = TRUSTED + [_rdir.TRUSTED, _kdinit.TRUSTED]
+from .. import cnir as _cnir  # noqa: E402
+TRUSTED = TRUSTED + [_rdir.TRUSTED, _kdinit.TRUSTED, _cnir.TRUSTED]
 ASSUMPTIONS = ['bytes objects hold values 0..255',
                '"the dump\'s string index" is read as: the LAST log-strings block (the code overwrites log_strings per block); '
                'an assumption of the specification, not a finding',
@@ -386,8 +387,18 @@ def oracle_blocks(c):
     return None
 
 
+def decl_translation_tie(rep):
+    """`decl_source_is_expected_ir` through the driver (`cnircheck`): the construct declarations translated from the source are
+    the ones `kd_header_v3_decl_eq_model` / `kd_v3_threadmap_decl_eq_model` / `kd_v3_additional_data_decl_eq_model` are proved for."""
+    from .. import cnir
+    return cnir.enable(rep)
+
+
 def correspondence(rep, rng, tier):
     from .. import rdir
+    if decl_translation_tie(rep):
+        from .. import cnir
+        cnir.section_decl_ir_v3(rep, rng, 300 if tier == 'quick' else 6000)
     rdir.enable(rep)
     _kdinit.init_section(rep)
     quick = tier == 'quick'
@@ -527,10 +538,12 @@ LEVEL_TEXT = ('Lean theorems over the reader/construct model of parse_v3 against
               'map and those records); the model is tied to the code by differential runs on generated dumps with real binary '
               'plists incl. all parser attributes, parse sequences, the public kevents/os_log_events entry points, and '
               'formatted_traces on version-3 dumps (section end-to-end, incl. blocks that raise behind the last chunk and cuts).'
-              " TRANSLATION TIE: the source text of parse / parse_v2 / parse_v3 (WHOLE: header, scans, thread map, chunk loop, reader.seek(-8, 1), the additional-data range, the attribute resets, the block loop with its if/elif chain on block.tag, the log loop) / seek_until / set_thread_map is translated on every run (tools/gen_pyir_rd.py, pure ast) into the Python-subset IR of Model/PyIRRd (statements over the model's reader: read, seek(-k, 1), while/for/break/raise/yield, bytes slices and comparisons, for-loops over the parsed blocks and the raw log events, the per-branch operations on the parser attributes, construct parsers / plistlib.loads / from_raw_log_event as primitives; big-step interpreter); source_is_expected_ir: the generated program is the one of Spec/PyIRRdExpected; parse_is_interpreted_source: for EVERY byte string and prior state the model's parse IS that program run by the interpreter, with the same read calls — nothing of parse_v3 is hand-modelled any more; per piece: seek_until_ir_eq_model, parse_v3_tail_ir_eq_model (the interpreted tail = tailV3 from any state), parse_v3_ir_eq_model.  The CONSTRUCTOR KdBufParser.__init__ is translated too (attribute initialisers sorted by attribute; part of the same generated program, so source_is_expected_ir covers it): kd_init_ir_eq_model — for every combination of given / None arguments and whatever the attributes held before, the interpreted constructor binds a given table to the caller's dict ITSELF (else a new empty dict) and leaves exactly the metadata {} (trace_codes '', kernel_extensions {'Binaries': []}, dyld_modules {}, images {}, processes {}, v3_header None) that the reader model parse / parseV3 / tailV3 starts from; kd_init_defaults (omitted = None; a third argument TypeError); kd_fresh_parser_parse (the interpreted parse on that object = the hand model from <given tables, {}>); kd_init_no_arguments (= EndToEnd.freshParser).  Sections kd-init-ir (driver rdinit) and kd-init-metadata (code only).")
+              " TRANSLATION TIE: the source text of parse / parse_v2 / parse_v3 (WHOLE: header, scans, thread map, chunk loop, reader.seek(-8, 1), the additional-data range, the attribute resets, the block loop with its if/elif chain on block.tag, the log loop) / seek_until / set_thread_map is translated on every run (tools/gen_pyir_rd.py, pure ast) into the Python-subset IR of Model/PyIRRd (statements over the model's reader: read, seek(-k, 1), while/for/break/raise/yield, bytes slices and comparisons, for-loops over the parsed blocks and the raw log events, the per-branch operations on the parser attributes, construct parsers / plistlib.loads / from_raw_log_event as primitives; big-step interpreter); source_is_expected_ir: the generated program is the one of Spec/PyIRRdExpected; parse_is_interpreted_source: for EVERY byte string and prior state the model's parse IS that program run by the interpreter, with the same read calls — nothing of parse_v3 is hand-modelled any more; per piece: seek_until_ir_eq_model, parse_v3_tail_ir_eq_model (the interpreted tail = tailV3 from any state), parse_v3_ir_eq_model.  The CONSTRUCTOR KdBufParser.__init__ is translated too (attribute initialisers sorted by attribute; part of the same generated program, so source_is_expected_ir covers it): kd_init_ir_eq_model — for every combination of given / None arguments and whatever the attributes held before, the interpreted constructor binds a given table to the caller's dict ITSELF (else a new empty dict) and leaves exactly the metadata {} (trace_codes '', kernel_extensions {'Binaries': []}, dyld_modules {}, images {}, processes {}, v3_header None) that the reader model parse / parseV3 / tailV3 starts from; kd_init_defaults (omitted = None; a third argument TypeError); kd_fresh_parser_parse (the interpreted parse on that object = the hand model from <given tables, {}>); kd_init_no_arguments (= EndToEnd.freshParser).  Sections kd-init-ir (driver rdinit) and kd-init-metadata (code only)."
+              " DECLARATIONS: the construct declarations kd_header_v3 / kd_v3_threadmap / kd_v3_additional_data themselves (module-level construct expressions, and BplistAdapter._decode = plistlib.loads) are translated too (tools/gen_pyir_cn.py -> Gen/PyIRCn, deep embedding Model/PyIRCn.Con with the interpreter Con.parse over the model's reader monad and the combinators of Model/Construct): decl_source_is_expected_ir; kd_header_v3_decl_eq_model (= headerV3Inner; Aligned(8, ...) is applied at the call site: header_v3_call_site), kd_v3_threadmap_decl_eq_model (= prefixedBytes + greedyEntries), kd_v3_additional_data_decl_eq_model (= greedyRange blockElem with the fuel tailV3 supplies), each for EVERY reader state: same value, exception, position, read counters; parse_v3_rests_on_declarations.")
 LEVEL_NOTE = ('plistlib.loads and OsLogEvent decoding are opaque parameters of the model (BlockOk / LogsResolve state what must load); '
               '"the dump\'s string index" = the LAST string block (assumption of the specification). Trusted: Lean kernel, '
               'Model/Construct + Model/Reader as models of construct/BytesIO (diffed, not verified), Spec.encodeV3 as the meaning of '
               '"version-3 dump".'
-              ' The hand model of the readers is no longer trusted by itself: it is proved equal to the interpreted source (trusted instead: translator tools/gen_pyir_rd.py and interpreter Model/PyIRRd, both tested against CPython by the sections *-ir; the construct parsers incl. kd_v3_additional_data, plistlib.loads and OsLogEvent.from_raw_log_event as primitives / parameters; the tail of parse_v3 is translated and proved like the rest).')
+              ' The hand model of the readers is no longer trusted by itself: it is proved equal to the interpreted source (trusted instead: translator tools/gen_pyir_rd.py and interpreter Model/PyIRRd, both tested against CPython by the sections *-ir; the construct parsers incl. kd_v3_additional_data, plistlib.loads and OsLogEvent.from_raw_log_event as primitives / parameters; the tail of parse_v3 is translated and proved like the rest).'
+              ' The construct parsers kd_header_v3 / kd_v3_threadmap / kd_v3_additional_data are no longer primitives by fiat: their declarations are translated and proved equal to the hand models (trusted instead: translator tools/gen_pyir_cn.py, Con.parse as the way construct composes its classes, and ONE combinator of Model/Construct per construct class).')
 TECHNIQUE = 'Lean 4 proof (parser/encoder round trip) + differential correspondence + translation validation (source text -> IR, proved equal to the model)'
